@@ -420,7 +420,10 @@ func c16Mutants(c *core.Ctx, d *c16Dep, tok string, mintAt time.Time, a *saml.As
 		}
 	}
 	if d.key.IsRSA() {
-		for _, m := range []jwt.SigningMethod{jwt.SigningMethodRS384, jwt.SigningMethodRS512, jwt.SigningMethodPS256} {
+		for _, m := range []jwt.SigningMethod{jwt.SigningMethodRS256, jwt.SigningMethodRS384, jwt.SigningMethodRS512, jwt.SigningMethodPS256} {
+			if m.Alg() == fmt.Sprint(hdr["alg"]) {
+				continue // that is the algorithm this deployment mints with (read off its own token), not another one
+			}
 			h := clone(hdr)
 			h["alg"] = m.Alg()
 			in := enc(h, claims)
@@ -450,6 +453,9 @@ func c16Mutants(c *core.Ctx, d *c16Dep, tok string, mintAt time.Time, a *saml.As
 	if !d.key.IsRSA() {
 		ownMethod = jwt.SigningMethodES256
 	}
+	if m := jwt.GetSigningMethod(fmt.Sprint(hdr["alg"])); m != nil { // whatever the deployment itself mints with
+		ownMethod = m
+	}
 	resign := func(cl map[string]any, kp *fx.KeyPair) string {
 		in := enc(hdr, cl)
 		s, err := ownMethod.Sign(in, kp.Key)
@@ -463,6 +469,8 @@ func c16Mutants(c *core.Ctx, d *c16Dep, tok string, mintAt time.Time, a *saml.As
 		f     func(cl map[string]any)
 		valid bool
 	}
+	// spellings of the same claims that a codec may or may not read as equal (no verdict either way)
+	noVerdict := map[string]bool{"aud-array": true}
 	eds := []ed{
 		{"unchanged", func(cl map[string]any) {}, true},
 		{"aud-other", func(cl map[string]any) { cl["aud"] = "https://other.example.com" }, false},
@@ -491,7 +499,9 @@ func c16Mutants(c *core.Ctx, d *c16Dep, tok string, mintAt time.Time, a *saml.As
 		cl := clone(claims)
 		e.f(cl)
 		if t := resign(cl, d.key); t != "" {
-			if e.valid {
+			if noVerdict[e.name] {
+				c16Judge(c, d, "own-key-resigned:"+e.name, "own-key-equivalent-spelling", d.cookie+"="+t, at, false, false, a, none)
+			} else if e.valid {
 				c16Judge(c, d, "own-key-resigned:"+e.name, "own-key-valid-claims", d.cookie+"="+t, at, true, false, a, none)
 			} else {
 				refuse("own-key-resigned:"+e.name, "own-key-invalid-claims:"+e.name, t)
